@@ -24,5 +24,9 @@ PY
   extra=", \"/repo/modules/tibc/light-clients/09-eth/types/header.go\": \"$tmp/header_patched.go\""
 fi
 printf '{"Replace": {"/repo/%s/zz_probe_test.go": "%s/probe_test.go"%s}}\n' "$pkg" "$tmp" "$extra" > "$tmp/ov.json"
+# optional: FIX_OVERLAY=<overlay json with candidate fixes> re-runs the probe on the patched tree
+if [ -n "$FIX_OVERLAY" ]; then
+  python3 -c 'import json,sys; a=json.load(open(sys.argv[1])); b=json.load(open(sys.argv[2])); b["Replace"].update(a["Replace"]); json.dump(b,open(sys.argv[1],"w"))' "$tmp/ov.json" "$FIX_OVERLAY"
+fi
 cd /repo
 go test -overlay "$tmp/ov.json" -vet=off -count=1 -timeout 300s -run "${2:-Probe}" -v "./$pkg/" 2>&1 | grep -E 'zz_probe|^--- |^FAIL|^ok|panic' | cut -c1-400
